@@ -85,7 +85,7 @@ def one_case(seed):
                 if (k, 'dist') in ids0 and ids0[(k, 'dist')] == ids1.get((k, 'dist')) and any(l in ('dist',) for l in labels):
                     return {'kind': 'edit-did-not-propagate-to-a-dependent', 'edit': desc, 'package': k, 'history': log2}, log2
             for (k, l), v in ids1.items():
-                if k not in dep and (k, l) in ids0 and ids0[(k, l)] != v and desc not in ('class script', 'tool path', 'tool libs'):
+                if k not in dep and (k, l) in ids0 and ids0[(k, l)] != v and desc not in ('class script', 'tool path', 'tool libs', 'tool libs order'):
                     return {'kind': 'edit-changed-an-unrelated-package', 'edit': desc, 'package': k, 'step': l, 'history': log2}, log2
             p.write(model)
             if I.ids_of(I.query(p)) != ids0:
@@ -152,5 +152,5 @@ def replay(rep):
     if found is not None: return {'reproduced': True, 'tried': tried, 'witness': found}
     if problems > tried // 2: return {'reproduced': None, 'detail': 'harness problems in %d of %d cases: %s' % (problems, tried, samples[:2])}
     return {'reproduced': False, 'tried': tried, 'distinct': len(distinct), 'samples': samples,
-            'bound': '%d generated projects (2-4 recipes + class + tool provider + git SCM) x 17 single edits with revert; git submodule matrix (6 settings); directed host-stream shape' % n,
+            'bound': '%d generated projects (2-4 recipes + class + tool provider + git SCM) x 18 single edits with revert; git submodule matrix (6 settings); directed host-stream shape' % n,
             'detail': 'hashed environments equal the declared non-weak sets, ids are a bijection of step content, every edit changed exactly the dependent ids and reverted cleanly'}
